@@ -566,12 +566,19 @@ func (ex *Exec) index(st *State, x *ssa.Index) Value {
 
 func (ex *Exec) makeSlice(st *State, x *ssa.MakeSlice) Value {
 	ln := ex.operand(st, x.Len).(*Term)
+	if cp, ok := ex.operand(st, x.Cap).(*Term); ok {
+		if !cp.IsLit() || !ln.IsLit() {
+			ex.allocs = append(ex.allocs, AllocRec{C: st.pc, Len: ln, Cap: cp, Pos: ex.pos(x.Pos())})
+		}
+		ex.panicIf(st, Or(Lt(cp, ln), Lt(cp, IntLit(0))), "makeslice-cap", x.Pos())
+	}
 	if classify(x.Type()) == KBytes {
 		if n, ok := ln.IntVal(); ok && n == 0 {
 			return BytesLit("")
 		}
 		b := Fresh("zeros", SBytes)
-		ex.assume(Eq(App("blen", SInt, b), ln))
+		ex.panicIf(st, Lt(ln, IntLit(0)), "makeslice-negative", x.Pos())
+		ex.assume(Implies(Ge(ln, IntLit(0)), Eq(App("blen", SInt, b), ln)))
 		return b
 	}
 	el := x.Type().Underlying().(*types.Slice).Elem()
@@ -623,7 +630,8 @@ func (ex *Exec) sliceOp(st *State, x *ssa.Slice) Value {
 				return b
 			}
 			r := App("bslice", SBytes, b, lo, hi)
-			ex.assume(Eq(App("blen", SInt, r), Sub(hi, lo)))
+			// only a slice expression within bounds has a length (the assumption must not rule the panic out)
+			ex.assume(Implies(And(Le(IntLit(0), lo), Le(lo, hi), Le(hi, ln)), Eq(App("blen", SInt, r), Sub(hi, lo))))
 			return r
 		case SStr:
 			ln := SLen(b)
@@ -635,7 +643,7 @@ func (ex *Exec) sliceOp(st *State, x *ssa.Slice) Value {
 				return b
 			}
 			r := App("sslice", SStr, b, lo, hi)
-			ex.assume(Eq(App("slen", SInt, r), Sub(hi, lo)))
+			ex.assume(Implies(And(Le(IntLit(0), lo), Le(lo, hi), Le(hi, ln)), Eq(App("slen", SInt, r), Sub(hi, lo))))
 			return r
 		}
 	case *PtrVal: // pointer to array
